@@ -27,6 +27,7 @@ pub const OP_CLONE_HANDLE: u8 = 7;
 pub const OP_DROP_HANDLE: u8 = 8;
 pub const OP_PROBE: u8 = 9;
 pub const OP_OBSERVE: u8 = 10;
+pub const OP_POLL_RACE: u8 = 11;
 
 pub const CL_ACQ_AFTER_WAIT: u32 = 0;
 pub const CL_RETURN: u32 = 1;
@@ -45,6 +46,7 @@ pub const CL_PROBE: u32 = 13;
 pub const CL_STEAL_FROM_WOKEN: u32 = 14;
 pub const CL_WOKEN_REQUEUED: u32 = 15;
 pub const CL_MULTI_WAKE: u32 = 16;
+pub const CL_RACING_RELEASE: u32 = 17;
 
 const CLASS_NAMES: &[&str] = &[
     "acquired-after-wait",
@@ -64,6 +66,7 @@ const CLASS_NAMES: &[&str] = &[
     "steal-from-woken",
     "woken-requeued",
     "one-op-woke-several",
+    "poll-racing-with-release",
 ];
 
 pub const MAX_RELEASERS: usize = 4;
@@ -118,6 +121,14 @@ impl World for SemaphoreWorld {
                 v.push(Cfg { flavour, mode, x: 4, y: 12, k, sw: 0 });
             }
         }
+        // mode bit 2: polls that race with a release() of another thread
+        for flavour in [FL_CHECKED, FL_SHARED_CHECKED] {
+            for mode in [4u8, 5] {
+                for x in [0u8, 1] {
+                    v.push(Cfg { flavour, mode, x, y: 12, k, sw: 0 });
+                }
+            }
+        }
         v
     }
     fn enum_configs(&self, tier: Tier) -> Vec<(Cfg, usize)> {
@@ -154,6 +165,9 @@ impl World for SemaphoreWorld {
             spec("drop_handle", if shared { 2 } else { 0 }, 3, 0),
             spec("probe_after_done", 1, cfg.k, 0),
             spec("observe", 1, 0, 0),
+            // poll (waker b & 1) while another thread calls release(1 + b / 2) at the first instant the
+            // internal lock is free
+            spec("poll_racing_release", if cfg.mode & 4 != 0 { 12 } else { 0 }, cfg.k, 8),
         ]
     }
     fn run(&self, cfg: &Cfg, ops: &[Op], run: &mut Run) {
@@ -384,12 +398,40 @@ fn run_m<M: RawMutex>(cfg: &Cfg, ops: &[Op], run: &mut Run) {
                 }
                 None => run.noops += 1,
             },
-            OP_POLL => match next_where(&slots, op.a, |s| s.pollable()) {
+            OP_POLL | OP_POLL_RACE => match next_where(&slots, op.a, |s| s.pollable()) {
                 Some(s) => {
                     let was_pending = slots[s].pending();
                     let was_woken = slots[s].woken();
                     let n = slots[s].num as usize;
-                    match slots[s].poll(op.b, run) {
+                    let rel_n = 1 + (op.b as usize >> 1);
+                    let race = op.code == OP_POLL_RACE && cfg.mode & 4 != 0 && released_total + rel_n <= cap;
+                    let op = &Op { code: OP_POLL, a: op.a, b: op.b & 1 };
+                    unsafe fn inject<M: RawMutex>(ctx: usize) {
+                        let (sem, n) = *(ctx as *const (*const Sem<M>, usize));
+                        (*sem).release(n);
+                    }
+                    let ctx: (*const Sem<M>, usize) = (sem_ref as *const Sem<M>, rel_n);
+                    let mut late_release = 0;
+                    if race {
+                        run.class(CL_RACING_RELEASE);
+                        tls::install_unlock_hook(&ctx as *const (*const Sem<M>, usize) as usize, inject::<M>);
+                    }
+                    let r = slots[s].poll(op.b, run);
+                    if race {
+                        let (fired, relocked) = tls::remove_unlock_hook();
+                        if !fired && !run.failed() {
+                            run.call("release()", || sem_ref.release(rel_n));
+                        }
+                        run.note(|| format!("  (racing release({}): inside the poll: {}, poll locked again afterwards: {})", rel_n, fired, relocked));
+                        released_total += rel_n;
+                        if relocked {
+                            // the poll may have looked at the permits again after the release
+                            ledger += rel_n;
+                        } else {
+                            late_release = rel_n;
+                        }
+                    }
+                    match r {
                         Some(Poll::Ready(rel)) => {
                             if slots[s].arrival != 0 && n > 0 {
                                 run.class(CL_ACQ_AFTER_WAIT);
@@ -421,6 +463,8 @@ fn run_m<M: RawMutex>(cfg: &Cfg, ops: &[Op], run: &mut Run) {
                         }
                         None => {}
                     }
+                    // one critical section per poll: the release came after the poll took effect
+                    ledger += late_release;
                 }
                 None => run.noops += 1,
             },
